@@ -18,16 +18,6 @@ def causeOf (st : Fsm) : Msg → Option Cause
   | .update => if st = .established then none else some (.unexpected .update)
   | .refresh => if st = .established then none else some (.unexpected .refresh)
 
-/-- where the unchanged code does not follow `errorClass` (findings): an OPEN in ESTABLISHED is
-    silently accepted (F31); a NOTIFICATION with a bad length is answered with a NOTIFICATION (F32).
-    (An OPERATIONAL message whose capability was not negotiated is ignored in ESTABLISHED since the
-    decoder fix 6bb3b84; that is tolerated, `causeOf` gives no cause for it.) -/
-def Deviates (st : Fsm) : Msg → Bool
-  | .openOk _ => st == .established
-  | .openSem _ => st == .established
-  | .bad .notifLen => true
-  | _ => false
-
 /-- what the model (= the code, by the correspondence) raises. -/
 def modelCode (st : Fsm) : Msg → Nat × Nat
   | .bad f => raised f
@@ -38,13 +28,13 @@ def isReading : Fsm → Bool
   | .opensent | .openconfirm | .established => true
   | _ => false
 
-/-- the table half of `code_is_class`: outside the three findings, what is raised is in the RFC class. -/
+/-- the table half of `code_is_class`: what is raised is in the RFC class. -/
 theorem modelCode_in_class (st : Fsm) (m : Msg) (cause : Cause) (hst : isReading st = true)
-    (hc : causeOf st m = some cause) (hd : Deviates st m = false) : modelCode st m ∈ errorClass cause st := by
-  cases st <;> simp [isReading] at hst <;> cases m <;> simp [causeOf, Deviates] at hc hd <;> subst hc <;>
+    (hc : causeOf st m = some cause) : modelCode st m ∈ errorClass cause st := by
+  cases st <;> simp [isReading] at hst <;> cases m <;> simp [causeOf] at hc <;> subst hc <;>
     first
       | decide
-      | (rename_i f; cases f <;> first | decide | simp at hd)
+      | (rename_i f; cases f <;> decide)
       | (rename_i e; cases e <;> decide)
 
 /-- outputs of `except Notify` when `peer.proto` is there and the write goes through. -/
@@ -74,10 +64,10 @@ theorem onNotify_sends (code sub : Nat) (s : State) (k : Conn) (hc : s.conn = so
   cases quietFsm s.fsm <;> cases canReconnect s <;> simp [sendsOn]
 
 /-- the structural half of `code_is_class`: a message with a cause is answered by `onNotify`
-    with `modelCode` — unless it is an OPEN in ESTABLISHED (F31). -/
+    with `modelCode`. -/
 theorem deliver_eq_onNotify (m : Msg) (s : State) (hinv : Inv s) (c : Nat) (k : Conn)
     (haw : awaited s = some c) (hc : s.conn = some k) (hk : k.id = c) (cause : Cause)
-    (hcause : causeOf s.fsm m = some cause) (hd : (s.fsm == .established && Deviates s.fsm m) = false) :
+    (hcause : causeOf s.fsm m = some cause) :
     deliver m s = onNotify (modelCode s.fsm m).1 (modelCode s.fsm m).2 s := by
   cases hp : s.pc with
   | awaitOpen c' =>
@@ -98,9 +88,9 @@ theorem deliver_eq_onNotify (m : Msg) (s : State) (hinv : Inv s) (c : Nat) (k : 
     have hcc : c' = c := by simpa [awaited, hp] using haw
     subst hcc
     have hf := (hinv.main _ k hp hc hk).1
-    rw [hf] at hcause hd ⊢
+    rw [hf] at hcause ⊢
     unfold deliver; rw [hp]
-    cases m <;> simp [causeOf, Deviates] at hcause hd <;> simp [mainIter, modelCode]
+    cases m <;> simp [causeOf] at hcause <;> simp [mainIter, modelCode, fsmSub]
   | backoff => simp [awaited, hp] at haw
   | done => simp [awaited, hp] at haw
   | passiveWait => simp [awaited, hp] at haw
